@@ -179,6 +179,15 @@ def run(ctx):
     r.check(once, "%s#one-append-per-request" % sreq.qname,
             "a request can be appended to more than one payload (or none is found)", where(sreq, zn.stmt),
             "a message appears in two payloads of one attempt")
+    # every message set is built from the request list of ITS topic/partition (the value of the grouping table's item),
+    # in every arm that builds one
+    cms_calls = [(lp, c) for lp in [x for x in ast.walk(sreq.node) if isinstance(x, ast.For) and isinstance(x.target, ast.Tuple) and len(x.target.elts) == 2
+                                    and norm(x.iter).endswith(".items()")] for c in ast.walk(lp) if isinstance(c, ast.Call) and call_name(c) == "create_message_set"]
+    all_cms = [c for c in ast.walk(sreq.node) if isinstance(c, ast.Call) and call_name(c) == "create_message_set"]
+    r.check(bool(all_cms) and len(cms_calls) == len(all_cms) and all(c.args and norm(c.args[0]) == unparse(lp.target.elts[1]) for lp, c in cms_calls),
+            "%s#message-set-of-own-partition" % sreq.qname, "a message set is built from something other than the requests grouped under its own "
+            "topic/partition: %s" % [norm(c.args[0]) if c.args else "?" for c in all_cms], where(sreq, all_cms[0] if all_cms else sreq.node),
+            "a batch spanning two partitions: every payload carries all messages of the batch, each message appears in several payloads")
     # create_message_set: iterate param 0, extend in order
     fors = [x for x in cms.body if isinstance(x, ast.For)]
     good = len(fors) == 1 and unparse(fors[0].iter) == cms.params[0] and isinstance(fors[0].target, ast.Name)
